@@ -43,6 +43,11 @@ def seed():
     return int(os.environ.get("VERIF_SEED", "0") or 0)
 
 
+def sample_seed(k=0):
+    """Seed of the congruential generator that samples emitted transitions (spec: EmitOffset)."""
+    return (seed() * 7919 + 13 + 101 * k) % 65520
+
+
 def build_dir(pid, clean=True):
     d = os.path.join(BUILD, pid)
     if clean and os.path.isdir(d):
@@ -88,18 +93,35 @@ def _parse_printed(out, res):
 
 
 def run_tlc(module, cfg, workdir, env=None, workers=None, simulate=None, depth=None, coverage=True,
-            timeout=3600, extra=None, deadlock=False, allow_violation=False, jvm=None, seed_=None, tag=None):
+            timeout=3600, extra=None, deadlock=False, allow_violation=False, jvm=None, seed_=None, tag=None, library=None, consts=None):
     """Run TLC on SPEC/<module>.tla with SPEC/<cfg>. Returns TLCResult.
 
     Raises MachineryError when TLC itself fails (parse error, crash, evaluation error, timeout)."""
     os.makedirs(workdir, exist_ok=True)
     tag = tag or os.path.basename(cfg).replace(".cfg", "")
+    if consts:
+        # literal constants appended to a copy of the base cfg ("K = 3", "S = \"x\"", "Ops <- OpsSum")
+        gen = os.path.join(workdir, tag + ".cfg")
+        with open(os.path.join(SPEC, cfg)) as f:
+            base = f.read()
+        if "CONSTANTS" not in base:
+            base += "\nCONSTANTS\n"
+        with open(gen, "w") as f:
+            f.write(base.rstrip("\n") + "\n")
+            for k, v in consts.items():
+                if isinstance(v, str) and v.startswith("<-"):
+                    f.write("  %s %s\n" % (k, v))
+                else:
+                    f.write("  %s = %s\n" % (k, json.dumps(v) if isinstance(v, str) else ("TRUE" if v is True else "FALSE" if v is False else v)))
+        cfg = gen
     meta = os.path.join(workdir, "meta-" + tag)
     if os.path.isdir(meta):
         shutil.rmtree(meta)
     cmd = ["java", "-XX:+UseParallelGC", "-Xss64m"]
     if jvm:
         cmd += jvm
+    if library:
+        cmd += ["-DTLA-Library=" + library]
     cmd += ["-cp", TLA_JAR + ":" + TLA_DEPS, "tlc2.TLC", "-metadir", meta, "-noGenerateSpecTE",
             "-workers", str(workers or NCPU), "-config", cfg]
     if coverage:
@@ -155,6 +177,35 @@ def run_tlc(module, cfg, workdir, env=None, workers=None, simulate=None, depth=N
         raise MachineryError("TLC did not finish: %s\n%s" % (res.cmd, out[-3000:]))
     res.ok = not res.violated
     return res
+
+
+def tla_literal(x):
+    """A Python value as a TLA+ expression (dict -> function with string domain, list -> tuple)."""
+    if isinstance(x, bool):
+        return "TRUE" if x else "FALSE"
+    if isinstance(x, int):
+        return str(x) if x >= 0 else "(%d)" % x
+    if isinstance(x, str):
+        return json.dumps(x)
+    if isinstance(x, (list, tuple)):
+        return "<<" + ", ".join(tla_literal(v) for v in x) + ">>"
+    if isinstance(x, dict):
+        if not x:
+            return "[x \\in {} |-> 0]"
+        return "(" + " @@ ".join("(%s :> %s)" % (json.dumps(k), tla_literal(v)) for k, v in x.items()) + ")"
+    raise TypeError("no TLA+ literal for %r" % (x,))
+
+
+def write_data_module(dirpath, name, defs):
+    """Writes <dirpath>/<name>.tla defining each key of defs as a TLA+ literal (evaluated once by TLC, unlike a
+    JsonDeserialize call, which TLC re-reads on every use).  Returns dirpath for run_tlc(library=...)."""
+    os.makedirs(dirpath, exist_ok=True)
+    with open(os.path.join(dirpath, name + ".tla"), "w") as f:
+        f.write("---- MODULE %s ----\nEXTENDS TLC\n" % name)
+        for k, v in defs.items():
+            f.write("%s == %s\n" % (k, tla_literal(v)))
+        f.write("====\n")
+    return dirpath
 
 
 def tlc_counterexample(out, maxlines=200):
@@ -276,3 +327,23 @@ def write_json(path, obj):
     with open(path, "w") as f:
         json.dump(obj, f)
     return path
+
+
+def judge_trace(rep, bd, events, name, module="MC_Judge", tag="judge", key_of=None):
+    """Writes events as ndjson, lets TLC validate them with <module>.tla, turns rejected lines into violations."""
+    trace = os.path.join(bd, tag + ".ndjson")
+    with open(trace, "w") as f:
+        for ev in events:
+            f.write(json.dumps(ev, default=str) + "\n")
+    r = run_tlc(module, module + ".cfg", bd, env={"TRACE_FILE": trace}, workers=1, coverage=False, tag=tag, timeout=3000)
+    rep.add_tlc(name + " (%d events)" % len(events), r)
+    if r.distinct != len(events) + 1:
+        raise MachineryError("trace not consumed: %d states for %d events (%s)" % (r.distinct, len(events), name))
+    for v in r.tagged("VIOL"):
+        ev = v["ev"]
+        k = key_of(ev) if key_of else {"check": ev.get("op"), "call": ev.get("call")}
+        rep.violation(k, {kk: (vv if not isinstance(vv, str) else vv[:300]) for kk, vv in ev.items() if kk not in ("op",)})
+    rep.count(evaluations=len(events), nontrivial=len(set(json.dumps(e, sort_keys=True, default=str) for e in events)), traces=1)
+    if events:
+        rep.sample(events[len(events) // 2])
+    return r
